@@ -79,11 +79,13 @@ theorem checkpoint_sound (keep : Nat → Bool) (mint : Int) (recs : List Rec) (r
     (∀ k ys, r = Rec.smp k ys → ∀ y ∈ ys, y.t ≥ mint) ∧ (∀ ys, r = Rec.series ys → ∀ p ∈ ys, keep p.1 = true) :=
   Ckpt.checkpoint_sound hr
 
-/-- `keepSeriesInWALCheckpointFn` of the head: in the head, or an expiry at or after `mint`. -/
+/-- `keepSeriesInWALCheckpointFn` of the head: in the head (reachable by ref), or an expiry at or after
+    `mint`. -/
 theorem head_keep_exact (m : CkptHead.Mem) (mint : Int) (ref : Nat) :
     m.keep mint ref = true ↔
-      (∃ s ∈ m.series, s.ref = ref) ∨ (∃ k, CkptHead.getExp m.walExp ref = some k ∧ k ≥ mint) := by
-  unfold CkptHead.Mem.keep
+      (∃ s ∈ m.series, s.ref = ref ∧ s.hidden = false) ∨
+        (∃ k, CkptHead.getExp m.walExp ref = some k ∧ k ≥ mint) := by
+  unfold CkptHead.Mem.keep CkptHead.Mem.byRef
   cases h : CkptHead.getExp m.walExp ref <;> simp [h]
 
 /-- `keepSeriesInWALCheckpointFn` of the agent: in memory, or deleted with `lastSegment > last`. -/
